@@ -265,6 +265,14 @@ func (s *syncNode) inject(b *protocol.VerifServed, f string) string {
 		}
 		b.Diff.Values = append(b.Diff.Values, &state.IdentityStateDiffValue{Address: crypto.PubkeyToAddress(sim.DetKey(w.Seed+77, int(h)).PublicKey), Value: sybilValue()})
 		return f
+	case "diff-noop":
+		// an entry that does not change the tree: the deletion of an address that is not in it (not generated by the model or
+		// the random scenarios: the header binds the diff only through the resulting root, see FastSync.tla "known limit")
+		if b.Diff == nil {
+			b.Diff = new(state.IdentityStateDiff)
+		}
+		b.Diff.Values = append(b.Diff.Values, &state.IdentityStateDiffValue{Address: crypto.PubkeyToAddress(sim.DetKey(w.Seed+78, int(h)).PublicKey), Deleted: true})
+		return f
 	case "diff-missing":
 		if b.Diff.Empty() {
 			return "none"
